@@ -37,6 +37,10 @@ impl OrphanBroker {
     }
 
     fn search_orphan_leader(&self, leader_hash: ParentHash) {
+        // read the pending flag BEFORE the status, like process_lonely_block does: the verify
+        // thread publishes the result (block ext / BLOCK_INVALID) before it clears the flag, so
+        // this order cannot miss a leader that finishes verification between the two reads
+        let leader_is_pending_verify = self.is_pending_verify.contains(&leader_hash);
         let leader_status = self.shared.get_block_status(&leader_hash);
 
         if leader_status.eq(&BlockStatus::BLOCK_INVALID) {
@@ -49,7 +53,6 @@ impl OrphanBroker {
             return;
         }
 
-        let leader_is_pending_verify = self.is_pending_verify.contains(&leader_hash);
         if !leader_is_pending_verify && !leader_status.contains(BlockStatus::BLOCK_STORED) {
             trace!(
                 "orphan leader: {} not stored {:?} and not in is_pending_verify: {}",
